@@ -1,1 +1,168 @@
-// harness code mounted in serde_avro_fast (see DESIGN.md)
+// Mounted in ...::writer::vectored_write_polyfill — C16: sink write schedule independence
+use super::*;
+
+const CAP: usize = 6;
+const MAX_CALLS: usize = 5;
+
+/// Sink whose every write call is decided by the solver:
+///   action 0: accept k bytes (1 <= k <= offered), 1: Err(Interrupted), 2: Ok(0), 3: hard error
+struct Sink {
+	buf: [u8; CAP],
+	len: usize,
+	calls: usize,
+	saw_zero: bool,
+	saw_hard: bool,
+	/// true: write_vectored only ever looks at the first non-empty buffer (std's default behaviour)
+	first_only: bool,
+}
+impl Sink {
+	fn step(&mut self, offered: usize) -> Result<usize> {
+		kani::assume(self.calls < MAX_CALLS);
+		self.calls += 1;
+		let action: u8 = kani::any();
+		kani::assume(action < 4);
+		match action {
+			0 => {
+				let k: usize = kani::any();
+				kani::assume(k >= 1 && k <= offered);
+				Ok(k)
+			}
+			1 => Err(Error::from(ErrorKind::Interrupted)),
+			2 => {
+				self.saw_zero = true;
+				Ok(0)
+			}
+			_ => {
+				self.saw_hard = true;
+				Err(Error::from(ErrorKind::PermissionDenied))
+			}
+		}
+	}
+	fn push(&mut self, b: u8) {
+		kani::assume(self.len < CAP);
+		self.buf[self.len] = b;
+		self.len += 1;
+	}
+}
+impl Write for Sink {
+	fn write(&mut self, data: &[u8]) -> Result<usize> {
+		if data.is_empty() {
+			return Ok(0);
+		}
+		let k = self.step(data.len())?;
+		let mut i = 0;
+		while i < k {
+			self.push(data[i]);
+			i += 1;
+		}
+		Ok(k)
+	}
+	fn write_vectored(&mut self, bufs: &[IoSlice<'_>]) -> Result<usize> {
+		let mut total = 0;
+		let mut first_nonempty = 0;
+		let mut j = 0;
+		while j < bufs.len() {
+			if total == 0 && !bufs[j].is_empty() {
+				first_nonempty = bufs[j].len();
+			}
+			total += bufs[j].len();
+			j += 1;
+		}
+		let offered = if self.first_only { first_nonempty } else { total };
+		if offered == 0 {
+			return Ok(0);
+		}
+		let k = self.step(offered)?;
+		let mut left = k;
+		let mut j = 0;
+		while j < bufs.len() && left > 0 {
+			let b: &[u8] = &bufs[j];
+			let mut i = 0;
+			while i < b.len() && left > 0 {
+				self.push(b[i]);
+				left -= 1;
+				i += 1;
+			}
+			j += 1;
+		}
+		Ok(k)
+	}
+	fn flush(&mut self) -> Result<()> {
+		Ok(())
+	}
+}
+
+fn wav(first_only: bool) {
+	let a: [u8; 2] = kani::any();
+	let b: [u8; 2] = kani::any();
+	let c: [u8; 2] = kani::any();
+	let (la, lb, lc): (usize, usize, usize) = (kani::any(), kani::any(), kani::any());
+	kani::assume(la <= 2 && lb <= 2 && lc <= 2);
+	let mut concat = [0u8; CAP];
+	let mut n = 0;
+	let mut i = 0;
+	while i < la {
+		concat[n] = a[i];
+		n += 1;
+		i += 1;
+	}
+	i = 0;
+	while i < lb {
+		concat[n] = b[i];
+		n += 1;
+		i += 1;
+	}
+	i = 0;
+	while i < lc {
+		concat[n] = c[i];
+		n += 1;
+		i += 1;
+	}
+	let mut sink = Sink { buf: [0; CAP], len: 0, calls: 0, saw_zero: false, saw_hard: false, first_only };
+	let r = write_all_vectored(&mut sink, [&a[..la], &b[..lb], &c[..lc]]);
+	// whatever happened, what the sink holds is a prefix of the concatenation: nothing reordered/duplicated
+	assert!(sink.len <= n, "c16: sink received more bytes than were submitted");
+	let mut k = 0;
+	while k < sink.len {
+		assert!(sink.buf[k] == concat[k], "c16: sink content is not a prefix of the submitted bytes");
+		k += 1;
+	}
+	kani::cover!(r.is_ok() && sink.calls >= 4 && n == CAP);
+	kani::cover!(r.is_ok() && la == 0 && lb == 2 && lc == 0);
+	kani::cover!(r.is_err() && sink.saw_zero);
+	kani::cover!(r.is_err() && sink.saw_hard);
+	match &r {
+		Ok(()) => {
+			assert!(!sink.saw_zero && !sink.saw_hard, "c16: Ok although the sink refused data");
+			assert!(sink.len == n, "c16: Ok but not every byte reached the sink");
+		}
+		Err(e) => {
+			assert!(sink.saw_zero || sink.saw_hard, "c16: error although the sink only made progress or asked for retry");
+			assert!(sink.len < n || n == 0, "c16: error after everything was written");
+			if sink.saw_zero {
+				assert!(e.kind() == ErrorKind::WriteZero, "c16: zero-length write not reported as WriteZero");
+			} else {
+				assert!(e.kind() == ErrorKind::PermissionDenied, "c16: sink's hard error did not surface");
+			}
+		}
+	}
+	std::mem::forget(r);
+}
+
+// @harness props=C16 tier=quick timeout=1200
+// @bound 3 slices of symbolic length 0..=2 each and symbolic content; sink accepting bytes across buffers; <= 5 sink calls, each accept-k / Interrupted / Ok(0) / hard error (runs needing more calls are outside); unwind 8
+#[kani::proof]
+#[kani::unwind(8)]
+#[kani::stub(alloc::fmt::format, crate::verif::stub_format)]
+fn c16_wav_across() {
+	wav(false);
+}
+
+// @harness props=C16 tier=quick timeout=1200
+// @bound same, sink that only ever takes from the first non-empty buffer (std's default write_vectored)
+#[kani::proof]
+#[kani::unwind(8)]
+#[kani::stub(alloc::fmt::format, crate::verif::stub_format)]
+fn c16_wav_first_only() {
+	wav(true);
+}
